@@ -150,6 +150,24 @@ def check_budget(n_cmds=0):
         raise Budget('the history ran for more than %.0f s' % MAX_HISTORY_S)
 
 
+import resource, signal
+MAX_MEMORY = 3 * 1024 ** 3        # address space of the runner; a normal batch needs well under 1 GB
+try:
+    resource.setrlimit(resource.RLIMIT_AS, (MAX_MEMORY, MAX_MEMORY))
+except (ValueError, OSError):
+    pass
+
+
+def _alarm(signum, frame):
+    raise Budget('the history ran for more than %.0f s' % MAX_HISTORY_S)
+
+
+try:
+    signal.signal(signal.SIGALRM, _alarm)
+except (ValueError, OSError):
+    pass
+
+
 class Boom(Exception):
     pass
 
@@ -401,6 +419,8 @@ def exec_op(w, op):
     elif o == 'bus_new':
         U.append(None)
         U[-1] = (AudioBus if op['audio'] else ControlBus)(op['channels'], w.srv, op.get('index'))
+    elif o == 'bus_sub':
+        U.append(None); U[-1] = U[op['u']].sub_bus(op['offset'], op['channels'])
     elif o == 'bus_free':
         U[op['u']].free()
     elif o == 'bus_set':
@@ -489,6 +509,8 @@ def run_history(ops, latency=None):
                     if k > 0:
                         return pos, k
                 except Exception as e:                   # flush failed (unencodable message) or library error
+                    if isinstance(e, MemoryError):
+                        raise Budget('MemoryError inside the library (address space capped at %d MB)' % (MAX_MEMORY >> 20))
                     if close_pos is None:
                         raise
                     mark(close_pos, 'flush:' + exc_name(e))
@@ -510,6 +532,8 @@ def run_history(ops, latency=None):
                             obj['zzz'] = 12345
                 mark(pos)
             except Exception as e:
+                if isinstance(e, MemoryError):
+                    raise Budget('MemoryError inside the library (address space capped at %d MB)' % (MAX_MEMORY >> 20))
                 mark(pos, exc_name(e))
             pos += 1
         return pos, 0
@@ -558,10 +582,22 @@ def main_():
             out.append({'steps': [], 'final': {}, 'skipped': 'budget exhausted earlier in this batch'})
             continue
         try:
-            out.append(run_history(ops, lat))
-        except Budget as e:
+            try:
+                signal.setitimer(signal.ITIMER_REAL, MAX_HISTORY_S)
+            except (ValueError, OSError):
+                pass
+            try:
+                out.append(run_history(ops, lat))
+            finally:
+                try:
+                    signal.setitimer(signal.ITIMER_REAL, 0)
+                except (ValueError, OSError):
+                    pass
+        except (Budget, MemoryError) as e:
             hits += 1
-            out.append({'steps': [], 'final': {}, 'budget': str(e)})
+            LOG.clear()
+            import gc; gc.collect()
+            out.append({'steps': [], 'final': {}, 'budget': str(e) or type(e).__name__})
             for sv in SERVERS:
                 while type(sv.addr).__name__ == 'BundleNetAddr':
                     sv._addr = sv._addr._save_addr
